@@ -108,7 +108,7 @@ pub fn c16_strategy() -> impl Strategy<Value = C16Case> {
 fn defaults_of(b: &Block) -> (u8, Vals) {
     let zero = Vals { a: 0.0, b: 0.0, c: 0, d: 0 };
     match &b.default {
-        None => (0, zero),
+        None => (2, zero), // no default clause: the state type's Default (S2, deliberately not the first variant)
         Some((s, DefaultValues::None)) => (*s, zero),
         Some((s, DefaultValues::Inline(f))) => {
             let mut v = zero;
@@ -215,7 +215,7 @@ pub struct Q {
 }
 
 #[derive(Clone, Copy, Debug, Default, PartialEq, Eq, State)]
-pub enum St { #[default] S0, S1, S2, S3, S4 }
+pub enum St { S0, S1, #[default] S2, S3, S4 }
 const STATES: [St; 5] = [St::S0, St::S1, St::S2, St::S3, St::S4];
 type Anim = EnumStateAnimator<St, QTimeline>;
 
